@@ -34,6 +34,7 @@ pub fn run(prop: &str, req: &str, rep: &str, outfile: &str) {
         "C19" => oracle_c19(&reqs, &reps, &mut fails, &mut checked, &mut nontrivial),
         "C14" => oracle_c14(&reqs, &reps, &mut fails, &mut checked, &mut nontrivial),
         "C07" => oracle_c07(&reqs, &reps, &mut fails, &mut checked, &mut nontrivial),
+        "C11" => oracle_c11(&reqs, &reps, &mut fails, &mut checked, &mut nontrivial),
         _ => {
             eprintln!("no oracle for {prop}");
             std::process::exit(2);
@@ -476,6 +477,64 @@ fn oracle_c07(
                 nontrivial.insert(q.clone());
             }
             _ => {}
+        }
+    }
+}
+
+// ------------------------------------------------------------------------------------
+
+fn oracle_c11(
+    reqs: &[String],
+    reps: &[String],
+    fails: &mut Vec<Failure>,
+    checked: &mut u64,
+    nontrivial: &mut HashSet<String>,
+) {
+    // names the library accepts, with their encodings: injectivity and separation
+    let mut valid: HashSet<String> = HashSet::new();
+    for (q, r) in reqs.iter().zip(reps.iter()) {
+        let t: Vec<&str> = q.split(' ').collect();
+        if t[0] == "sn_valid" && t[2] == "0" && r == "1" {
+            valid.insert(t[1].to_string());
+        }
+    }
+    let mut by_enc: HashMap<String, String> = HashMap::new();
+    let special = ["\u{5}DigitalSignature", "\u{5}MsiDigitalSignatureEx", "\u{5}SummaryInformation", "\u{5}DocumentSummaryInformation"];
+    for (i, (q, r)) in reqs.iter().zip(reps.iter()).enumerate() {
+        let t: Vec<&str> = q.split(' ').collect();
+        *checked += 1;
+        if r == "panic" {
+            fail(fails, i, q, r, "name function panicked".into());
+            continue;
+        }
+        if t[0] == "sn_encode" && t[2] == "0" && valid.contains(t[1]) {
+            nontrivial.insert(t[1].to_string());
+            let enc = str_of_hex(r).unwrap();
+            // the container compares names by (UTF-16 length, upper-cased text)
+            let key = format!("{}:{}", enc.encode_utf16().count(), enc.to_uppercase());
+            let name = str_of_hex(t[1]).unwrap();
+            if let Some(other) = by_enc.get(&key) {
+                let a = other.to_uppercase();
+                if *other != name && !(a == name.to_uppercase() && other.encode_utf16().count() == name.encode_utf16().count()) {
+                    fail(fails, i, q, r, format!("accepted names {other:?} and {name:?} collide in the container"));
+                }
+            } else {
+                by_enc.insert(key, name.clone());
+            }
+            if special.contains(&enc.as_str()) {
+                fail(fails, i, q, r, "an accepted user name encodes to a special stream name".into());
+            }
+            if enc.starts_with('\u{4840}') {
+                fail(fails, i, q, r, "an accepted user name encodes to a table stream name".into());
+            }
+            if enc.contains(|c| "/\\:!".contains(c)) || enc.encode_utf16().count() > 31 {
+                fail(fails, i, q, r, "an accepted user name is not a legal container name".into());
+            }
+            // decoding the encoding must give the name back
+            let (d, tb) = msi::verif::streamname::decode(&enc);
+            if d != name || tb {
+                fail(fails, i, q, r, format!("accepted name {name:?} is listed back as {d:?}"));
+            }
         }
     }
 }
